@@ -1,7 +1,8 @@
 """C09  File hashes always reflect current file content (never a stale persistent-cache value).
 
 A case is a short history of file operations over four files (colliding basenames in two
-directories), one directory and one symbolic link to a file, interleaved with hash computations made in this process (fresh
+directories), one directory (which, per case, also holds a symbolic link to a file outside it and/or
+one to a sibling file) and one symbolic link to a file, interleaved with hash computations made in this process (fresh
 PersistentCache on the shared location via argument / via PYDRA_HASH_CACHE, one long-lived
 PersistentCache object, a task checksum) and in a child process.  `replay` interprets the op list
 with a plain loop next to an in-memory content model.
@@ -33,7 +34,9 @@ DESIGN_REF = "5/C09"
 TECHNIQUE = "operation histories vs content model; differential against an empty persistent cache"
 RULE = (
     "cases = histories (<=12 ops quick, <=30 thorough) over 4 files (same basenames in two "
-    "directories), 1 directory and 1 symlink to a file: write same-size/different-size content, os.utime to an mtime_ns "
+    "directories), 1 directory and 1 symlink to a file; drawn per case: whether the directory has an "
+    "entry that is a symlink to a file OUTSIDE it and/or one to a sibling file (so its content also "
+    "changes through writes that touch nothing below it). Ops: write same-size/different-size content, os.utime to an mtime_ns "
     "at which the target was hashed before or to a constant, os.replace over, shutil.copy2 over, and "
     "hash ops (fresh PersistentCache by argument / by PYDRA_HASH_CACHE, one long-lived "
     "PersistentCache object, a task checksum, a child process), all sharing one cache location. "
@@ -42,7 +45,9 @@ RULE = (
 )
 ASSUMPTIONS = [
     "files are small (one chunk); content pool of 6 strings (3 of equal size)",
-    "hash of a Directory is expected to depend on the names and contents of the files below it",
+    "hash of a Directory is expected to depend on the names and contents of the files below it; a "
+    "symbolic link below it counts with the content of the file it points to (that is what "
+    "fileformats hashes), a dangling one as an entry without content",
     "the defect model (hash stored once per (kind, path, mtime_ns)) only names the root cause of a "
     "deviation; the deviation itself is decided by the differential and the content model",
     "timestamps come from the real file system (tmpfs under /dev/shm); natural mtime collisions "
@@ -71,7 +76,12 @@ def replay(case):
             os.symlink(tgt, w / ln)          # relative link inside w
         shared = root / "hashcache"
         shared.mkdir()
-        model = R.FsModel({p: R.CONTENTS[c] for p, c in case["init"].items()})
+        links = list(case.get("links", []))
+        for ln in links:
+            os.symlink(R.DIRLINKS[ln][1], w / ln)   # relative link text; may dangle for a while
+            info["labels"].add("dir_entry_symlink_" + ("outside" if R.DIRLINKS[ln][1].startswith("..")
+                                                       else "sibling"))
+        model = R.FsModel({p: R.CONTENTS[c] for p, c in case["init"].items()}, links)
         for p, c in model.files.items():
             (w / p).write_text(c)
         pc_obj = PersistentCache(location=shared)
@@ -89,8 +99,9 @@ def replay(case):
                 seen_mtimes.append(m)
 
         def touch(p, what):
+            via = model.via_link(p)
             for t in model.affected(p):
-                last_op[t] = what
+                last_op[t] = what + ("_via_entry_symlink" if t in via else "")
 
         for step, op in enumerate(case["ops"]):
             k = op[0]
